@@ -75,6 +75,10 @@ func cmdCheck(args []string) int {
 	}
 	seed := 0
 	fmt.Sscan(os.Getenv("VERIF_SEED"), &seed)
+	if seed < 0 {
+		seed = -seed
+	}
+	solverSeed = seed % 1000000
 	cfg := RunConfig{Repo: envOr("FVC_REPO", "/repo"), Verif: envOr("FVC_VERIF", "/verif"), Prop: prop, Tier: tier, Timeout: 30, Workers: 16}
 	if tier == "thorough" {
 		cfg.Timeout = 120
